@@ -45,7 +45,12 @@ RULE = ("hist cases: seed -> tree (<= 8 nodes, random shape, bonds/open dims fro
         "parent or root on either side, identifier default / reuse / fresh, insert_identity, "
         "change_node_identifier, replace_tensor with a permutation, legs_before_combination + contract + "
         "split back, plain accesses, and a malformed stream (splits / contractions that would create a bond > 24 "
-        "or an array > 40000 entries are not drawn). nodeseq cases: random Node method sequences. "
+        "or an array > 40000 entries are not drawn). About 60 % of the histories carry the input-space audit options: "
+        "split_node_qr in FULL / KEEP mode, split_node_svd with its default parameter object, split_nodes called "
+        "directly with a contraction mode, contract_all_children, accesses through tensors.get / items / values and "
+        "store-after-read, completely_contract_tree (deep copy and in place); real / integer / single-precision "
+        "tensors, norms 1e-8 .. 1e8, a rank-deficient bond, read-only arrays, prefix-related identifiers, pre-linked "
+        "Node objects, a root added with add_parent_to_root (oracle only). nodeseq cases: random Node method sequences. "
         "comp cases: seed -> tree (2-8 nodes) and 2-10 composite edits (link update, two-site update, centre move, "
         "canonical_form to a random centre, contract_and_split_with_parent, truncate_node; SVDs untruncated or cut to "
         "1 / 2) on random edges in both orientations; non-trivial = >= 3 different kinds and some child order changed. "
@@ -84,6 +89,40 @@ ASSUMPTIONS = ["copy.deepcopy of a TreeTensorNetwork is value-equal and alias-fr
 MAX_NODES = 8
 MAX_BOND = 24          # generation-time caps that keep the dense reference affordable in long histories
 MAX_SIZE = 40000
+
+# Families that are switched off because the UNCHANGED library fails them (possible genuine defects, reported to the
+# coordinator; see notes/C02.md "Input-space audit").  key -> exact signature (inputs, message).
+PENDING_FINDINGS = {
+    "contract_all_children_fresh_id": {
+        "inputs": "ttn.contract_all_children(node_id, new_identifier=X) with X != node_id on a node with >= 2 children",
+        "message": "KeyError: '<node_id>' (the second contract_nodes call still names the node that the first call "
+                   "replaced by X); with exactly one child, or X omitted / X == node_id, the call works",
+    },
+    "add_parent_to_root_unlinked_node": {
+        "inputs": "ttn.add_parent_to_root(root_leg, Node(identifier=X), tensor, parent_leg) with a Node that was not "
+                  "constructed with its tensor (the form add_root and add_child_to_parent accept: they call link_tensor)",
+        "message": "TypeError: object of type 'NoneType' has no len() (add_parent_to_root never links the tensor); "
+                   "the family builds the new root as Node(tensor=..., identifier=...) instead",
+    },
+}
+
+NAME_POOL = ["n1", "n10", "n100", "n", "1", "10", "N1", "n 1", "n1_", "_n1", "n01", "out_of_n1", "in_of_n1", "ncontr"]
+
+
+def audit_options(rng: random.Random, n: int) -> Dict[str, Any]:
+    """Input-space audit (notes/C02.md): element type, magnitude, rank deficiency, read-only input arrays,
+    identifiers that are prefixes / substrings of each other and of the default identifiers, a root that was put on
+    top with add_parent_to_root."""
+    r = random.Random(rng.randrange(10 ** 9))
+    aud: Dict[str, Any] = {"ops": True}
+    aud["dtype"] = r.choice(["complex", "complex", "complex", "float", "int", "float32", "complex64"])
+    aud["scale"] = r.choice([None, None, None, 1e-8, 1e8, 1e-4, 1e4])
+    aud["deficient"] = r.random() < 0.25
+    aud["readonly"] = r.random() < 0.2
+    aud["names"] = r.random() < 0.3
+    aud["apr"] = n >= 2 and r.random() < 0.12
+    aud["linked"] = r.random() < 0.3
+    return aud
 
 
 # ===================================================================== expected state (documented rules)
@@ -201,7 +240,13 @@ class World:
         self.nprng = np.random.default_rng(seed)
         n = case["n"]
         rng = self.rng
+        self.aud = dict(case.get("aud") or {})
+        self.arng = random.Random(seed ^ 0x3C6EF372)        # private stream of the audit options
+        self.no_model = bool(self.aud.get("apr"))
         par = gen.random_parent_array(rng, n)
+        if self.aud.get("apr"):
+            # a tree whose root has exactly one child: the root will be added LAST, with add_parent_to_root
+            par = [-1] + [0 if q == -1 else q + 1 for q in gen.random_parent_array(rng, n - 1)]
         bond = gen.random_bonds(rng, par, (1, 2, 2, 3))
         open_dims: Dict[int, List[int]] = {}
         total, count = 1, 0
@@ -238,6 +283,9 @@ class World:
         arr, labels = dense.contract_labeled(items)
         order = sorted(range(len(labels)), key=lambda j: labels[j][1])
         self.T0 = np.transpose(arr, order) if order else np.asarray(arr)
+        # scales for the tolerances: |T0| <= product of the tensor norms (exact cancellation can make it much smaller)
+        self.prodnorm = float(np.prod([float(np.linalg.norm(canon[i])) for i in range(n)]))
+        self.single = any(np.asarray(canon[i]).dtype in (np.float32, np.complex64) for i in range(n))
         self.exp = Exp()
         for i in range(n):
             self.exp.nodes[names[i]] = {"parent": names[par[i]] if par[i] >= 0 else None,
@@ -260,7 +308,14 @@ class World:
         rng, nprng = self.rng, self.nprng
         n = len(par)
         names = {i: gen.node_name(i) for i in range(n)}
+        aud = self.aud
+        if aud.get("names"):
+            names = dict(enumerate(self.arng.sample(NAME_POOL, n)))
         order = gen.insertion_order(rng, par)
+        apr = bool(aud.get("apr"))
+        if apr:
+            order = [x for x in order if x != 0] + [0]
+        deficient_node = self.arng.choice([x for x in range(n) if par[x] >= 0]) if (aud.get("deficient") and n > 1) else None
         attach: Dict[int, List[int]] = {i: [] for i in range(n)}
         for x in order:
             if par[x] >= 0:
@@ -282,6 +337,7 @@ class World:
             dims = [dim_of(l) for l in legs]
             t = gen.rand_tensor(nprng, dims, True, False) if dims else np.array(complex(nprng.standard_normal(),
                                                                                     nprng.standard_normal()))
+            t = self._audit_tensor(t, x == deficient_node, n)
             canon[x] = t
             virt = [l for l in legs if l[0] != "o"]
             opens = [l for l in legs if l[0] == "o"]
@@ -291,11 +347,24 @@ class World:
             vi, oi = iter(virt), iter(opens)
             raw_order = [next(vi) if sl == "v" else next(oi) for sl in slots]
             raw_t = np.transpose(t, [legs.index(l) for l in raw_order]) if legs else t
+            if aud.get("readonly"):
+                t.flags.writeable = False           # the owner of the data: every view of it is read-only as well
+                raw_t = np.transpose(t, [legs.index(l) for l in raw_order]) if legs else t
             axes = ",".join(f"{lab_of(l)}.{dim_of(l)}" for l in raw_order) if raw_order else "-"
-            node = ptn.Node(identifier=names[x])
+            if aud.get("linked") or (apr and x == 0):
+                # a Node already linked to its tensor (as tests/ and the state generators of the library build them);
+                # add_parent_to_root NEEDS that, see PENDING_FINDINGS["add_parent_to_root_unlinked_node"]
+                node = ptn.Node(tensor=raw_t, identifier=names[x])
+            else:
+                node = ptn.Node(identifier=names[x])
             cur[x] = list(raw_order)
             nvirt[x] = 0
-            if par[x] < 0:
+            if apr and x == 0:
+                # the root comes last: add_parent_to_root(root_leg, parent, tensor, parent_leg)
+                c = attach[0][0]
+                ttn.add_parent_to_root(cur[c].index(("p",)), node, raw_t, cur[0].index(("c", c)))
+                toks.append("apr")
+            elif par[x] < 0 or (apr and par[x] == 0):
                 ttn.add_root(node, raw_t)
                 toks.append(f"root:{self.nid(names[x])}:{axes}")
             else:
@@ -311,6 +380,28 @@ class World:
                 cur[x].insert(0, ("p",))
                 nvirt[x] = 1
         return ttn, canon, attach, names, toks
+
+    def _audit_tensor(self, t: np.ndarray, deficient: bool, n: int) -> np.ndarray:
+        aud = self.aud
+        if not aud:
+            return t
+        if deficient and t.ndim and t.shape[0] > 1:
+            t = np.array(t, copy=True)
+            t[1:] = t[:1] * np.arange(2, t.shape[0] + 1).reshape([-1] + [1] * (t.ndim - 1))   # rank 1 across the bond
+        dt = aud.get("dtype", "complex")
+        if dt == "float":
+            t = np.ascontiguousarray(t.real)
+        elif dt == "int":
+            t = np.rint(2 * t.real).astype(np.int64)
+            if t.size and not t.any():
+                t.reshape(-1)[0] = 1            # (an all-zero tensor cannot be split without truncation: see C10 / C11)
+        elif dt == "float32":
+            t = t.real.astype(np.float32)
+        elif dt == "complex64":
+            t = t.astype(np.complex64)
+        if aud.get("scale") and t.dtype.kind in "fc":
+            t = (t * aud["scale"] ** (1.0 / n)).astype(t.dtype)
+        return t
 
     # ---- name translation (uuid identifiers get the stable alias @u<k>)
     def rid(self, name: Optional[str]) -> Optional[str]:
@@ -387,9 +478,11 @@ def check_state(w: World, ordered: Optional[List[str]] = None) -> List[str]:
     if arr.shape != w.T0.shape:
         return [f"contraction has shape {arr.shape} in label order, original {w.T0.shape}: "
                 f"an open leg is not where the documented rule places it"]
-    scale = max(1.0, float(np.max(np.abs(w.T0))) if w.T0.size else 1.0)
+    # relative to the data: the largest entry of the original tensor, but never less than 1e-4 of the product of the
+    # tensor norms (what round-off is relative to when the contraction cancels, e.g. for integer tensors)
+    scale = max(float(np.max(np.abs(w.T0))) if w.T0.size else 1.0, 1e-4 * w.prodnorm, 1e-300)
     err = float(np.max(np.abs(arr - w.T0))) if w.T0.size else 0.0
-    if not err <= 1e-8 * scale:
+    if not err <= 1e-8 * (1e5 if w.single else 1.0) * scale:
         return [f"contraction differs from the original tensor (max abs err {err:.3g}, scale {scale:.3g}): "
                 f"values changed or an open leg is misplaced"]
     return []
@@ -461,11 +554,24 @@ def gen_split(w: World, rng: random.Random, x: str, how: Optional[str] = None) -
     if how == "replace" and {"ia": rows, "ib": cols, "qr": min(rows, cols)}[repl] > MAX_BOND:
         repl = "qr"
     bond_dim = {"ia": rows, "ib": cols, "qr": min(rows, cols)}[repl] if how == "replace" else min(rows, cols)
+    variant = None
+    if w.aud.get("ops") and how == "qr":
+        # the optional `mode` of split_node_qr: FULL (bond = rows) and KEEP (bond = columns; needs a leg on the R side)
+        in_has_leg = bool(in_ch or in_open or (par is not None and keep == "in"))
+        variant = rng.choice(["reduced", "reduced_kw", "full", "keep" if in_has_leg else "full"])
+        bond_dim = {"full": rows, "keep": cols}.get(variant, bond_dim)
+    elif w.aud.get("ops") and how == "svd":
+        # svd_params omitted (documented default object), or split_nodes called directly with the splitting function
+        # and the contraction mode as keyword arguments
+        variant = rng.choice(["untruncated", "default", "direct:vcontr", "direct:ucontr", "direct:equal"])
     if bond_dim > MAX_BOND or rows * bond_dim > MAX_SIZE or cols * bond_dim > MAX_SIZE:
         return None
-    return {"op": "split", "how": how, "id": x, "out_ch": out_ch, "in_ch": in_ch, "out_open": out_open,
-            "in_open": in_open, "keep": keep, "out_mode": om, "in_mode": im, "out_id": out_id, "in_id": in_id,
-            "pass_node": rng.random() < 0.4, "repl": repl}
+    op = {"op": "split", "how": how, "id": x, "out_ch": out_ch, "in_ch": in_ch, "out_open": out_open,
+          "in_open": in_open, "keep": keep, "out_mode": om, "in_mode": im, "out_id": out_id, "in_id": in_id,
+          "pass_node": rng.random() < 0.4, "repl": repl}
+    if variant:
+        op["variant"] = variant
+    return op
 
 
 def gen_contract(w: World, rng: random.Random) -> Optional[Dict[str, Any]]:
@@ -501,6 +607,10 @@ def gen_op(w: World, rng: random.Random, bad_rate: float = 0.08) -> Optional[Dic
         kinds.append(("split", 3.5 if n > 2 else 6.0))
         if n >= 2:
             kinds.append(("insert_identity", 0.8))
+    if w.aud.get("ops"):
+        if n >= 2:
+            kinds.append(("cac", 1.0))
+        kinds.append(("cct", 0.4))
     tot = sum(wt for _, wt in kinds)
     r = rng.random() * tot
     for kind, wt in kinds:
@@ -508,7 +618,25 @@ def gen_op(w: World, rng: random.Random, bad_rate: float = 0.08) -> Optional[Dic
         if r <= 0:
             break
     if kind == "access":
-        return {"op": "access", "id": rng.choice(names), "via": rng.choice(["tensors", "ttn", "root"])}
+        vias = ["tensors", "ttn", "root"] + (["get", "items", "values", "store"] if w.aud.get("ops") else [])
+        return {"op": "access", "id": rng.choice(names), "via": rng.choice(vias)}
+    if kind == "cac":
+        cands = [x for x in names if exp.nodes[x]["children"]]
+        if not cands:
+            return None
+        x = rng.choice(cands)
+        mode = rng.choice(["default", "own", "fresh"])
+        if mode == "fresh" and len(exp.nodes[x]["children"]) >= 2 and "contract_all_children_fresh_id" in PENDING_FINDINGS:
+            mode = "default"
+        size = int(np.prod(w.ttn.nodes[w.rid(x)].shape, dtype=int))
+        for c in exp.nodes[x]["children"]:
+            sc = list(w.ttn.nodes[w.rid(c)].shape)
+            size = size * int(np.prod(sc, dtype=int)) // max(sc[0] * sc[0], 1)
+        if size > MAX_SIZE:
+            return None
+        return {"op": "cac", "id": x, "mode": mode, "new": fresh_name(w, rng) if mode == "fresh" else x}
+    if kind == "cct":
+        return {"op": "cct", "inplace": rng.random() < 0.25, "method": rng.random() < 0.5}
     if kind == "rename":
         old = rng.choice(names)
         new = old if rng.random() < 0.1 else fresh_name(w, rng)
@@ -541,7 +669,12 @@ def gen_op(w: World, rng: random.Random, bad_rate: float = 0.08) -> Optional[Dic
 def gen_bad(w: World, rng: random.Random) -> Optional[Dict[str, Any]]:
     exp = w.exp
     names = list(exp.nodes)
-    what = rng.choice(["contract_nn", "split_nonneighbour", "split_dupleg", "split_missingleg", "rename_dup",
+    # Only calls whose rejection the library promises by an explicit check of its own at that level
+    # (NoConnectionException for non-neighbours, ValueError for an identifier in use, NotCompatibleException for a
+    # tensor / leg that does not fit, the adjacency assertion of insert_identity).  Leg specifications that name an
+    # open leg twice or not at all are outside the documented domain without a promised reaction (today an assertion
+    # deep inside tensor_matricization fires): they are no longer generated (old replays still run them).
+    what = rng.choice(["contract_nn", "split_nonneighbour", "rename_dup",
                        "replace_shape", "identity_nonedge", "add_child_dup", "add_child_dim"])
     if what == "contract_nn":
         pairs = [(a, b) for a in names for b in names
@@ -635,6 +768,19 @@ def admissible(w: World, op: Dict[str, Any]) -> bool:
                     return False
             others = set(N) - {x}
             return op["out_id"] not in others and op["in_id"] not in others and op["out_id"] != op["in_id"]
+        if k == "cac":
+            x = op["id"]
+            if x not in N or not N[x]["children"]:
+                return False
+            if op["mode"] == "fresh":
+                if op["new"] in N:
+                    return False
+                if len(N[x]["children"]) >= 2 and "contract_all_children_fresh_id" in PENDING_FINDINGS:
+                    return False
+                return True
+            return op["new"] == x
+        if k == "cct":
+            return True
         if k == "insert_identity":
             return (op["child"] in N and N[op["child"]]["parent"] == op["parent"] and len(N) < MAX_NODES
                     and (op["new"] is None or op["new"] not in N))
@@ -739,10 +885,25 @@ def do_split(w: World, op: Dict[str, Any], how: Optional[str] = None):
         return name
     oid = "" if op["out_mode"] == "default" else ident(op["out_mode"], op["out_id"], "")
     iid = "" if op["in_mode"] == "default" else ident(op["in_mode"], op["in_id"], "")
+    variant = op.get("variant")
     if how == "qr":
-        w.ttn.split_node_qr(x, out, inn, q_identifier=oid, r_identifier=iid)
+        from pytreenet.util.tensor_splitting import SplitMode
+        if variant in (None, "reduced"):
+            w.ttn.split_node_qr(x, out, inn, q_identifier=oid, r_identifier=iid)
+        else:
+            md = {"reduced_kw": SplitMode.REDUCED, "full": SplitMode.FULL, "keep": SplitMode.KEEP}[variant]
+            w.ttn.split_node_qr(x, out, inn, q_identifier=oid, r_identifier=iid, mode=md)
     elif how == "svd":
-        w.ttn.split_node_svd(x, out, inn, u_identifier=oid, v_identifier=iid, svd_params=untruncated())
+        from pytreenet.util.tensor_splitting import contr_truncated_svd_splitting, ContractionMode
+        if variant == "default":
+            w.ttn.split_node_svd(x, out, inn, u_identifier=oid, v_identifier=iid)
+        elif variant and variant.startswith("direct:"):
+            cm = {"vcontr": ContractionMode.VCONTR, "ucontr": ContractionMode.UCONTR,
+                  "equal": ContractionMode.EQUAL}[variant.split(":")[1]]
+            w.ttn.split_nodes(x, out, inn, contr_truncated_svd_splitting, oid, iid,
+                              contr_mode=cm, svd_params=untruncated())
+        else:
+            w.ttn.split_node_svd(x, out, inn, u_identifier=oid, v_identifier=iid, svd_params=untruncated())
     else:
         a, b = factor_for_replace(w, op)
         w.ttn.split_node_replace(x, a, b, ident(op["out_mode"], op["out_id"], "out_of_"),
@@ -765,7 +926,14 @@ class Stop(Exception):
 
 def run_history(ctx, case: Dict[str, Any], model_states: Optional[List[str]] = None):
     """Returns (ops_executed, info). Reports failures through ctx."""
-    w = World(case)
+    try:
+        w = World(case)
+    except common.HarnessError:
+        raise
+    except Exception as e:   # noqa: BLE001
+        ctx.oracle_fail(dict(case, ops=[]), "building the network through the public add_root / add_child_to_parent / "
+                        f"add_parent_to_root calls raised {type(e).__name__}: {str(e)[:160]}")
+        return [], {"kinds": set(), "lazy": False, "reuse": False, "toks": [], "lines": [], "opidx": []}, None
     rng = random.Random(case["seed"] * 7919 + 13)
     given = case.get("ops")
     nops = len(given) if given is not None else case["nops"]
@@ -836,8 +1004,38 @@ def apply_op(ctx, w: World, op: Dict[str, Any], info, report):
         x = w.rid(op["id"])
         if lazy_pending(w, [op["id"]]):
             info["lazy"] = True
+        if op["via"] in ("items", "values"):
+            # the Mapping views of the tensor dictionary go through the same lazy transposition, for every node
+            keys = list(ttn.tensors.keys())
+            if lazy_pending(w, [w.alias(k_) for k_ in keys]):
+                info["lazy"] = True
+            if op["via"] == "items":
+                got = call(lambda: list(ttn.tensors.items()), "ttn.tensors.items()")
+            else:
+                got = list(zip(keys, call(lambda: list(ttn.tensors.values()), "ttn.tensors.values()")))
+            if [k_ for k_, _ in got] != keys:
+                report(tag + f"ttn.tensors.{op['via']}() yields keys {[k_ for k_, _ in got]}, the dictionary has {keys}")
+            for k_, t_ in got:
+                if tuple(t_.shape) != tuple(ttn.nodes[k_].shape):
+                    report(tag + f"ttn.tensors.{op['via']}() yields a tensor of shape {t_.shape} for node {k_} of shape "
+                                 f"{ttn.nodes[k_].shape}")
+            verify()
+            for k_ in keys:
+                emit(f"acc:{w.nid(w.alias(k_))}", None)
+            info["lines"][-1] = state_line(w)
+            ctx.tally("access_via", op["via"])
+            return
+        ctx.tally("access_via", op["via"])
         if op["via"] == "tensors":
             t = call(lambda: ttn.tensors[x], "ttn.tensors[id]")
+            node = ttn.nodes[x]
+        elif op["via"] == "get":
+            t = call(lambda: ttn.tensors.get(x), "ttn.tensors.get(id)")
+            node = ttn.nodes[x]
+        elif op["via"] == "store":
+            # read, then store a copy under the same key (what the time-evolution code does with an updated tensor)
+            t = call(lambda: ttn.tensors[x], "ttn.tensors[id]")
+            call(lambda: ttn.tensors.__setitem__(x, np.array(t, copy=True)), "ttn.tensors[id] = tensor")
             node = ttn.nodes[x]
         elif op["via"] == "root":
             node, t = call(lambda: ttn.root, "ttn.root")
@@ -901,7 +1099,25 @@ def apply_op(ctx, w: World, op: Dict[str, Any], info, report):
         x = op["id"]
         xr = w.rid(x)
         tok = split_token(w, op)
-        call(lambda: do_split(w, op), f"split_node_{op['how']}")
+        call(lambda: do_split(w, op), f"split_node_{op['how']}" + (f"[{op['variant']}]" if op.get("variant") else ""))
+        if op.get("variant"):
+            ctx.tally("split_variant", f"{op['how']}:{op['variant']}")
+        if op.get("variant") == "default":
+            # the default parameter object discards singular values below 1e-15 (relative and absolute): the kept
+            # dimension is whatever the library chose, at most min(rows, columns); the contraction must not notice
+            want_max = int(tok.rsplit(":", 1)[1])
+            oid_r = {"default": "out_of_" + xr, "reuse": xr}.get(op["out_mode"], op["out_id"])
+            iid_r = {"default": "in_of_" + xr, "reuse": xr}.get(op["in_mode"], op["in_id"])
+            try:
+                got = comp_bond(ttn, oid_r, iid_r)
+            except Exception as e:   # noqa: BLE001
+                report(tag + f"after split_node_svd with default parameters the two new nodes are not neighbours: {e}")
+            if not 1 <= got <= want_max:
+                report(tag + f"split_node_svd with default parameters created a bond of dimension {got}; "
+                             f"min(rows, columns) = {want_max}")
+            if got < want_max:
+                ctx.tally("split_variant", "svd:default discarded (rank-deficient)")
+            tok = tok.rsplit(":", 1)[0] + f":{got}"
         for mode, ident, prefix in ((op["out_mode"], op["out_id"], "out_of_"), (op["in_mode"], op["in_id"], "in_of_")):
             if mode == "default" and prefix + xr != ident:
                 w.real[ident] = prefix + xr
@@ -986,6 +1202,77 @@ def apply_op(ctx, w: World, op: Dict[str, Any], info, report):
         verify(after="after splitting back with legs_before_combination: ")
         emit(stok, state_line(w))
         ctx.hyp_validated += 1
+    elif kind == "cac":
+        x = op["id"]
+        xr = w.rid(x)
+        kids = list(exp.nodes[x]["children"])
+        if lazy_pending(w, [x] + kids):
+            info["lazy"] = True
+        if op["mode"] == "own":
+            info["reuse"] = True
+        ctx.tally("contract_all_children", f"{op['mode']}:{min(len(kids), 3)}{'+' if len(kids) > 3 else ''} children")
+        if op["mode"] == "default":
+            call(lambda: ttn.contract_all_children(xr), "contract_all_children")
+        elif op["mode"] == "own":
+            call(lambda: ttn.contract_all_children(xr, new_identifier=xr), "contract_all_children")
+        else:
+            call(lambda: ttn.contract_all_children(xr, op["new"]), "contract_all_children")
+        cur = x
+        for c in kids:                      # documented: "done by contracting the children with the parent node"
+            new = op["new"]
+            emit(f"contract:{w.nid(cur)}:{w.nid(c)}:{w.nid(new)}", None)
+            exp_contract(exp, cur, c, new)
+            for nm in (cur, c):
+                if nm in w.real and nm != new:
+                    del w.real[nm]
+            cur = new
+        verify(ordered=[cur])
+        info["lines"][-1] = state_line(w)
+    elif kind == "cct":
+        from pytreenet.contractions.tree_contraction import completely_contract_tree
+        inplace = bool(op["inplace"])
+        ctx.tally("completely_contract_tree", "in place" if inplace else "on a deep copy")
+        if lazy_pending(w, list(exp.nodes)):
+            info["lazy"] = True
+        if op["method"]:
+            res, order = call(lambda: ttn.completely_contract_tree(to_copy=not inplace), "completely_contract_tree")
+        elif inplace:
+            res, order = call(lambda: completely_contract_tree(ttn), "completely_contract_tree")
+        else:
+            res, order = call(lambda: completely_contract_tree(ttn, to_copy=True), "completely_contract_tree")
+        # documented: the returned list is "the order of the open legs in the final tensor"; which traversal the
+        # routine uses is not promised, only that every node is absorbed into its parent: a pre-order of the tree
+        got_order = [w.alias(i) for i in order]
+        pos = {nm: j for j, nm in enumerate(got_order)}
+        if sorted(got_order) != sorted(exp.nodes) or got_order[0] != exp.root or any(
+                pos[nm] < pos[e_["parent"]] for nm, e_ in exp.nodes.items() if e_["parent"] is not None):
+            report(tag + f"completely_contract_tree reports the contraction order {got_order}: not an order of all "
+                         f"nodes in which every node comes after its parent")
+        plan: List[Tuple[str, str]] = []
+
+        def walk(nm):                       # the contractions that produce this pre-order
+            for c in sorted(exp.nodes[nm]["children"], key=lambda c_: pos[c_]):
+                walk(c)
+                plan.append((nm, c))
+        walk(exp.root)
+        labels = [lab for nm in got_order for lab in exp.nodes[nm]["open"]]
+        perm = sorted(range(len(labels)), key=lambda j: labels[j])
+        arr = np.transpose(res, perm) if perm else np.asarray(res)
+        scale = max(float(np.max(np.abs(w.T0))) if w.T0.size else 1.0, 1e-4 * w.prodnorm, 1e-300)
+        if arr.shape != w.T0.shape or not float(np.max(np.abs(arr - w.T0))) <= 1e-8 * (1e5 if w.single else 1.0) * scale:
+            report(tag + "completely_contract_tree: the result is not the original tensor with the open legs in "
+                         "contraction order (node by node, each node's open legs in its own order)")
+        if inplace:
+            for a, c in plan:
+                emit(f"contract:{w.nid(a)}:{w.nid(c)}:{w.nid(a)}", None)
+                exp_contract(exp, a, c, a)
+                if c in w.real:
+                    del w.real[c]
+            verify()
+            if plan:
+                info["lines"][-1] = state_line(w)
+        else:
+            verify()
     elif kind == "bad":
         tok = bad_token(w, op)
         run_bad(ctx, w, op, report, tag)
@@ -1053,9 +1340,12 @@ def run_bad(ctx, w: World, op: Dict[str, Any], report, tag: str):
         report(tag + f"inadmissible call ({what}) did not raise")
     ctx.tally("malformed", f"{what}:{type(raised).__name__}")
     if atomic:
+        # Whether a rejected call leaves the network untouched is promised nowhere (and the property quantifies over
+        # admissible operations only): tallied, and the history continues on the snapshot taken before the call.
         pr = observable_equal(w, struct, shapes) or check_state(w)
         if pr:
-            report(tag + f"call raised {type(raised).__name__} but left the network changed: " + pr[0])
+            ctx.tally("malformed_nonatomic", what)
+            w.ttn = backup
     else:
         pr = observable_equal(w, struct, shapes) or check_state(w)
         if pr:
@@ -1078,6 +1368,8 @@ def describe(op: Dict[str, Any]) -> str:
         return f"legs_before_combination+contract+split_{op['how']}({op['a']},{op['b']},swap={op['swap']})"
     if k == "bad":
         return f"malformed:{op['what']}"
+    if k == "cac":
+        return f"contract_all_children({op['id']},new={op['mode']})"
     return k + "(" + ",".join(f"{a}={v}" for a, v in op.items() if a != "op") + ")"
 
 
@@ -1128,6 +1420,8 @@ def node_exec(node, tok: str) -> None:
         node.exchange_open_leg_ranges(range(int(f[1]), int(f[2])), range(int(f[3]), int(f[4])))
     elif k == "swap":
         node.swap_two_child_legs(f[1], f[2])
+    elif k == "swf":
+        node.swap_with_first_child(f[1])
     else:
         raise common.HarnessError(f"unknown node token {tok}")
 
@@ -1141,7 +1435,13 @@ def gen_node_tok(rng: random.Random, node, used_ids: List[int]) -> str:
         v = max(used_ids + [0]) + 1
         used_ids.append(v)
         return v
-    wild = rng.random() < 0.12          # inadmissible / boundary arguments
+    # Arguments outside the documented domain.  Only those are generated for which the library PROMISES a rejection
+    # by an explicit check of its own (NotCompatibleException for a leg that is not open / a tensor that does not fit,
+    # ValueError for "no open legs" / "not a child of this node" / a second parent): there both the library and the
+    # model must refuse.  Arguments for which nothing is promised (leg indices beyond the last leg, empty / backward /
+    # overlapping / non-open ranges of exchange_open_leg_ranges, a `permutation` that is no permutation, the same leg
+    # named twice in open_legs_to_children) are NOT generated: how the code reacts to them is not fixed by anything.
+    wild = rng.random() < 0.12
     cands = ["reset", "rt", "rt"]
     if nopen > 0 or wild:
         cands += ["o2c", "o2c", "o2cs", "o2cs"]
@@ -1151,12 +1451,14 @@ def gen_node_tok(rng: random.Random, node, used_ids: List[int]) -> str:
         cands += ["p2o"]
     if kids or wild:
         cands += ["c2o", "cs2o", "swap"]
-    if nopen >= 1 or wild:
+    if kids:
+        cands += ["swf"]
+    if nopen >= 1:
         cands += ["xch", "xch"]
     if rng.random() < 0.03:
         cands = ["link"]
     k = rng.choice(cands)
-    anyleg = lambda: rng.randrange(0, nl + 2)               # noqa: E731
+    anyleg = lambda: rng.randrange(0, max(nl, 1))           # noqa: E731   (an existing leg: open or not)
     openleg = lambda: (anyleg() if (wild or nopen <= 0) else rng.randrange(nv, nl))   # noqa: E731
     if k == "link":
         dims = rng.sample(range(2, 10), rng.randint(max(nv, 0), 7)) if nv <= 7 else []
@@ -1175,13 +1477,9 @@ def gen_node_tok(rng: random.Random, node, used_ids: List[int]) -> str:
         if r < 0.15:
             return f"rt:{fmt_list(shape)}:none"
         if wild:
-            q = rng.choice(["dup", "short", "range", "shape"])
-            if q == "dup" and nl >= 2:
-                p[0] = p[1]
-            elif q == "short" and nl >= 1:
+            # promised: "Shapes of the tensor and the node do not match!" (NotCompatibleException)
+            if rng.random() < 0.5 and nl >= 1:
                 p = p[:-1]
-            elif q == "range" and nl >= 1:
-                p[rng.randrange(nl)] = nl + 1
             else:
                 tsh = tsh + [2]
         return f"rt:{fmt_list(tsh)}:{fmt_list(p)}"
@@ -1190,8 +1488,9 @@ def gen_node_tok(rng: random.Random, node, used_ids: List[int]) -> str:
     if k == "o2c":
         return f"o2c:{new_id()}:{openleg()}"
     if k == "o2cs":
-        m = rng.randint(0, max(nopen, 0) if not wild else 3)
-        legs = rng.sample(range(nv, nl), min(m, max(nopen, 0))) if not wild else [anyleg() for _ in range(m)]
+        m = rng.randint(0, max(nopen, 0) if not wild else min(3, nl))
+        # wild: distinct existing legs, some of them possibly not open (promised NotCompatibleException)
+        legs = rng.sample(range(nv, nl), min(m, max(nopen, 0))) if not wild else rng.sample(range(nl), m)
         return "o2cs:" + (",".join(f"{new_id()}={l}" for l in legs) if legs else "-")
     if k == "p2o":
         return "p2o"
@@ -1203,13 +1502,17 @@ def gen_node_tok(rng: random.Random, node, used_ids: List[int]) -> str:
     if k == "swap":
         pick = lambda: (rng.choice(kids) if (kids and not wild) else rng.randrange(1, 12))   # noqa: E731
         return f"swap:{pick()}:{pick()}"
+    if k == "swf":
+        return f"swf:{rng.choice(kids) if not wild else rng.randrange(1, 12)}"
     if k == "xch":
-        if wild:
-            v = [anyleg() for _ in range(4)]
-            return f"xch:{v[0]}:{v[1]}:{v[2]}:{v[3]}"
+        # documented domain only: two ascending, non-overlapping ranges of open legs (either may be empty, as
+        # _create_contracted_node produces them for nodes without open legs), in either argument order
         cuts = sorted(rng.randint(nv, nl) for _ in range(4))
         a, b = (cuts[0], cuts[1]), (cuts[2], cuts[3])
-        if rng.random() < 0.5:
+        # either argument order when both batches are non-empty; an EMPTY batch only in ascending position, as the
+        # caller in the library passes it (the reversed order with an empty batch trips an assertion today, but
+        # nothing is promised for it)
+        if rng.random() < 0.5 and a[0] < a[1] and b[0] < b[1]:
             a, b = b, a
         return f"xch:{a[0]}:{a[1]}:{b[0]}:{b[1]}"
     return "reset"
@@ -1221,6 +1524,7 @@ def run_nodeseq_impl(case: Dict[str, Any]) -> Tuple[List[str], List[str], List[s
     rng = random.Random(case["seed"])
     node = ptn.Node(identifier="x")
     toks: List[str] = []
+    mtoks: List[str] = []
     lines: List[str] = []
     probs: List[str] = []
     used: List[int] = []
@@ -1232,9 +1536,17 @@ def run_nodeseq_impl(case: Dict[str, Any]) -> Tuple[List[str], List[str], List[s
     for i in range(n):
         tok = given[i] if given is not None else (first if i == 0 else gen_node_tok(rng, node, used))
         saved = copy.deepcopy(node)
+        mtok = tok
+        if tok.startswith("swf:"):      # the model has no such method: it must be swap_two_child_legs(child, first)
+            if not node.children:
+                continue
+            mtok = f"swap:{tok.split(':')[1]}:{node.children[0]}"
+        mtoks.append(mtok)
         try:
             node_exec(node, tok)
             lines.append(fmt_node(node))
+            if tok.startswith("swf:") and trusted and node.children[0] != tok.split(":")[1]:
+                probs.append(f"after swap_with_first_child({tok.split(':')[1]}) the first child is {node.children[0]}")
         except common.HarnessError:
             raise
         except Exception:   # noqa: BLE001
@@ -1252,7 +1564,7 @@ def run_nodeseq_impl(case: Dict[str, Any]) -> Tuple[List[str], List[str], List[s
                 probs.append(f"after {tok}: {node.nvirt_legs()} neighbours but {node.nlegs()} legs")
             elif tuple(node.shape) != tuple(node._shape[p] for p in perm):
                 probs.append(f"after {tok}: shape {node.shape} is not the permuted stored shape")
-    return toks, lines, probs
+    return toks, lines, probs, mtoks
 
 
 def node_tok_valid(tok: str) -> bool:
@@ -1346,7 +1658,7 @@ def split_token(w: World, op: Dict[str, Any]) -> str:
         if how == "replace":
             bond = {"ia": rows, "ib": cols, "qr": min(rows, cols)}[op["repl"]]
         else:
-            bond = min(rows, cols)
+            bond = {"full": rows, "keep": cols}.get(op.get("variant"), min(rows, cols))
     return f"split:{w.nid(x)}:{o}:{i}:{w.nid(op['out_id'])}:{w.nid(op['in_id'])}:{bond}"
 
 
@@ -1568,9 +1880,20 @@ def run_case(ctx, case, model_out=None):
     kind = case.get("kind", "hist")
     if kind == "hist":
         done, info, w = run_history(ctx, case)
+        if w is None:
+            ctx.count(("hist", case["seed"], case["n"], 0), nontrivial=False, corr=False)
+            return
         nontrivial = len(info["kinds"]) >= 3 and (info["lazy"] or info["reuse"])
-        ctx.count(("hist", case["seed"], case["n"], len(done)), nontrivial=nontrivial, corr=True)
-        if model_out is None:
+        ctx.count(("hist", case["seed"], case["n"], len(done)), nontrivial=nontrivial, corr=not w.no_model)
+        aud = case.get("aud") or {}
+        ctx.tally("element_type", aud.get("dtype", "complex"))
+        ctx.tally("magnitude", f"{aud['scale']:g}" if aud.get("scale") else "1")
+        ctx.tally("network_options", "+".join(k_ for k_ in ("deficient", "readonly", "names", "apr", "linked") if aud.get(k_)) or "-")
+        if w.no_model:
+            model_out = False           # the model has no add_parent_to_root: oracle only
+        if model_out is False:
+            model_out = None
+        elif model_out is None:
             model_out = ctx.lean.batch(["C02 hist " + " ".join(info["toks"])])[0]
         elif callable(model_out):
             model_out(case, done, info)
@@ -1582,9 +1905,9 @@ def run_case(ctx, case, model_out=None):
         ctx.tally("final_nodes", len(w.exp.nodes))
         ctx.sample({k: v for k, v in case.items() if k != "ops"}, 3)
     elif kind == "nodeseq":
-        toks, lines, probs = run_nodeseq_impl(case)
+        toks, lines, probs, mtoks = run_nodeseq_impl(case)
         if model_out is None:
-            model_out = ctx.lean.batch(["C02 nodeseq " + " ".join(toks)])[0]
+            model_out = ctx.lean.batch(["C02 nodeseq " + " ".join(mtoks)])[0]
         compare_nodeseq(ctx, case, toks, lines, probs, model_out)
     elif kind == "comp":
         run_comp(ctx, case)
@@ -1601,6 +1924,8 @@ def gen_cases(ctx) -> List[Dict[str, Any]]:
         n = rng.choice([1, 2, 3, 3, 4, 4, 5, 5, 6, 6, 7, 8])
         nops = rng.choice([maxops, maxops, rng.randint(3, maxops)])
         cases.append({"kind": "hist", "seed": rng.randrange(10 ** 9), "n": n, "nops": nops})
+        if rng.random() < 0.6:
+            cases[-1]["aud"] = audit_options(rng, n)
     for _ in range(ctx.n(3000, 20000)):
         cases.append({"kind": "nodeseq", "seed": rng.randrange(10 ** 9), "nops": rng.randint(2, 25)})
     for _ in range(ctx.n(150, 1500)):
@@ -1629,8 +1954,8 @@ def run(ctx):
     for case in cases:
         if case.get("kind") == "nodeseq":
             pending.append((case,) + run_nodeseq_impl(case))
-    outs = ctx.lean.batch(["C02 nodeseq " + " ".join(t) for _, t, _, _ in pending])
-    for (case, toks, lines, probs), out in zip(pending, outs):
+    outs = ctx.lean.batch(["C02 nodeseq " + " ".join(t[4]) for t in pending])
+    for (case, toks, lines, probs, _), out in zip(pending, outs):
         compare_nodeseq(ctx, case, toks, lines, probs, out)
     pend = []
 
